@@ -999,15 +999,15 @@ func callBuiltin(caller *frame, callpos token.Pos, fn *ssa.Builtin, args []value
 			arg0 := args[0].([]value)
 			return append(arg0, strBytes(args[1])...)
 		}
-		// append([]T, ...[]T) []T
-		return append(args[0].([]value), args[1].([]value)...)
+		// append([]T, ...[]T) []T  (struct / array elements are values: copy them)
+		return append(args[0].([]value), copyElems(args[1].([]value))...)
 
 	case "copy": // copy([]T, []T) int or copy([]byte, string) int
 		src := args[1]
 		if isStr(src) {
 			src = strBytes(src)
 		}
-		return copy(args[0].([]value), src.([]value))
+		return copy(args[0].([]value), copyElems(src.([]value)))
 
 	case "close": // close(chan T)
 		close(args[0].(chan value))
@@ -1564,4 +1564,43 @@ func fandbits[F floaty](x, y F) F {
 		*(*uint64)(unsafe.Pointer(&x)) &= *(*uint64)(unsafe.Pointer(&y))
 	}
 	return x
+}
+
+// copyValue deep-copies aggregate values (structs and arrays have value
+// semantics in Go; the interpreter represents them as slices).
+func copyValue(v value) value {
+	switch v := v.(type) {
+	case structure:
+		c := make(structure, len(v))
+		for i, e := range v {
+			c[i] = copyValue(e)
+		}
+		return c
+	case array:
+		c := make(array, len(v))
+		for i, e := range v {
+			c[i] = copyValue(e)
+		}
+		return c
+	}
+	return v
+}
+
+func copyElems(vs []value) []value {
+	needs := false
+	for _, e := range vs {
+		switch e.(type) {
+		case structure, array:
+			needs = true
+		}
+		break
+	}
+	if !needs {
+		return vs
+	}
+	out := make([]value, len(vs))
+	for i, e := range vs {
+		out[i] = copyValue(e)
+	}
+	return out
 }
